@@ -7,5 +7,9 @@ def run(prop, tier, seed, replay):
         common.ensure_impl_python()
         import ir_check, ir_props
         return ir_props.run(prop, tier, seed, replay)
+    if prop in ('C07', 'C08', 'C09'):
+        common.ensure_impl_python()
+        import xform_check
+        return xform_check.run(prop, tier, seed, replay)
     print('no check registered for', prop)
     return 2
